@@ -363,6 +363,33 @@ C05_WorkConserving ==
       /\ QueueRulesAllow(j))
      => ~FitsIdle(j)
 
+\* progress by displacement in the unobstructed single-claimant class (scenario classes
+\* "unobs-reclaim" / "unobs-preempt" are built so that the antecedent of the property holds; the
+\* spec re-checks the antecedent from the scenario instead of trusting the label):
+\* interchangeable nodes, interchangeable single-pod 1-GPU jobs, full cluster, one pending job.
+Claimant == CHOOSE p \in Pods : S[p].st = "pending"
+OnePending == Cardinality({p \in Pods : S[p].st = "pending"}) = 1
+ClusterFull == \A n \in Nodes : DevicesUsed(n) = N(n).gpus
+Uniform == /\ \A p \in Pods : P(p).gpu = 1 /\ ~IsSharing(p) /\ Unconstrained(p) /\ J(JobOf(p)).min = 1
+           /\ \A q \in Queues : Q(q).minRtP = 0 /\ Q(q).minRtR = 0 /\ Q(q).gl = -1
+           /\ \A n \in Nodes : UsableNode(n)
+PlacedInCycle(p) == \E i \in Dec : (BindAny(i) \/ Piped(i)) /\ D[i].p = p
+\* the claimant keeps its queue and all ancestors within deserved quota ...
+ClaimantWithinQuota(p) == \A q \in Ancestors(J(JobOf(p)).queue) : Q(q).gq = -1 \/ QGpu(q, 0, FALSE) + 1000 <= Q(q).gq
+\* ... and a preemptible pod runs in a queue (levelled against the claimant's) above its deserved quota
+ReclaimVictimExists(p) ==
+  \E v \in Pods : /\ S[v].st = "running" /\ J(JobOf(v)).preempt = 1 /\ J(JobOf(v)).queue # J(JobOf(p)).queue
+                  /\ LET x == StepDownQ(J(JobOf(v)).queue, J(JobOf(p)).queue) IN Q(x).gq # -1 /\ QGpu(x, 0, FALSE) > Q(x).gq
+C05_Reclaim ==
+  (AtCycleEnd /\ ~failed /\ cyc = 1 /\ OnePending /\ Uniform /\ ClusterFull) =>
+     ((ClaimantWithinQuota(Claimant) /\ ReclaimVictimExists(Claimant)) => PlacedInCycle(Claimant))
+PreemptVictimExists(p) ==
+  \E v \in Pods : /\ S[v].st = "running" /\ J(JobOf(v)).preempt = 1 /\ J(JobOf(v)).queue = J(JobOf(p)).queue
+                  /\ J(JobOf(v)).prio < J(JobOf(p)).prio
+C05_Preempt ==
+  (AtCycleEnd /\ ~failed /\ cyc = 1 /\ OnePending /\ Uniform /\ ClusterFull) =>
+     (PreemptVictimExists(Claimant) => PlacedInCycle(Claimant))
+
 (***************************************************************************)
 (* C04 - hard placement constraints for every bind and nomination.         *)
 (* Node side: ready, schedulable, node selector, required node affinity    *)
